@@ -58,6 +58,7 @@ type FuncContract struct {
 	Spec     *UnitSpec
 	Inline   bool
 	Trusted  bool // contract assumed, body not verified
+	AssumeEnsures bool // body verified for safety and frame; the ensures clauses are assumed (listed)
 	Pure     bool
 	Verify   bool // body is verified (repo functions unless trusted/extern)
 	Arith    string
@@ -415,6 +416,8 @@ func parseClause(body, path string, line int, fc *FuncContract, us *UnitSpec) er
 		}
 	case word == "inline":
 		fc.Inline = true
+	case word == "trusted" && rest == "ensures":
+		fc.AssumeEnsures = true
 	case word == "trusted":
 		fc.Trusted = true
 		fc.Verify = false
